@@ -34,6 +34,7 @@ type FuncContract struct {
 	MayPanic     bool
 	NoSafety     bool // implicit safety obligations are not generated (stated in evidence)
 	NoFrame      bool // the frame obligation is not generated (stated in evidence)
+	ViaContract  bool // some verified unit calls this function through its contract (its frame matters)
 	Requires     []Clause
 	Ensures      []Clause
 	Assumes      []Clause
